@@ -113,8 +113,7 @@ def process_fn(repo, annot_rel, opts, mode, canary, base_variants):
         rec.rules = log
         text = '#[verifier::external_body]\n' + rtok.render(lowered).rstrip() + ' { unimplemented!() }\n'
         return text, rec
-    if canary:
-        toks = _add_canary(toks)
+    ctoks = _add_canary(toks) if canary else None
     sp, marks = annot.splice(toks)
     lopts = {}
     if opts.get('drop_asserts'):
@@ -124,7 +123,18 @@ def process_fn(repo, annot_rel, opts, mode, canary, base_variants):
     except lower.Unsupported as e:
         raise UnitProblem('unsupported construct in %s: %s' % (a.locator, e))
     rec.rules = log
-    return rtok.render(lowered), rec
+    text = rtok.render(lowered)
+    if ctoks is not None:
+        # vacuity canary: a renamed copy with `ensures false`, next to the unmodified function (callers keep
+        # seeing the real contract)
+        sp, marks = annot.splice(ctoks)
+        clow, _ = lower.lower(sp, marks, lopts)
+        for i, (k, t) in enumerate(clow):
+            if k == 'id' and t == 'fn':
+                clow[i + 1] = ('id', clow[i + 1][1] + '__canary')
+                break
+        text += '\n' + rtok.render(clow)
+    return text, rec
 
 
 WORD_SUBST = {
@@ -150,6 +160,8 @@ def build_unit(repo, unit_rel, variants=(), canary=False, word=64):
             continue
         cmd, rest = m.group(1), m.group(2).split()
         if cmd == 'INCLUDE':
+            for k, v in subst.items():
+                rest[0] = rest[0].replace('@%s@' % k, v)
             with open(os.path.join(CONTRACTS, rest[0])) as f:
                 inc = f.read()
             for k, v in subst.items():
